@@ -14,7 +14,8 @@ from exabgp.bgp.message.update.attribute import NextHopSelf
 from exabgp.configuration.core.parser import Tokeniser
 
 # VPLS parameter maximum value (16-bit field)
-VPLS_PARAM_MAX = 0xFFFF  # Maximum value for VPLS endpoint, size, offset, and label base
+VPLS_PARAM_MAX = 0xFFFF  # Maximum value for VPLS endpoint, size and offset
+VPLS_LABEL_MAX = 0xFFFFF  # The label base is an MPLS label: 20 bits (RFC 4761 section 3.2.2)
 
 
 def vpls_endpoint(tokeniser: Tokeniser) -> int:
@@ -43,7 +44,7 @@ def vpls_offset(tokeniser: Tokeniser) -> int:
 
 def vpls_base(tokeniser: Tokeniser) -> int:
     number = int(tokeniser())
-    if number < 0 or number > VPLS_PARAM_MAX:
+    if number < 0 or number > VPLS_LABEL_MAX:
         raise ValueError('invalid l2vpn vpls label')
     return number
     # vpls.base = number
